@@ -405,7 +405,7 @@ func (lm *levelManager) compactL0() {
 	}
 
 	// merge sstables
-	mergedEntries := kway.Merge(dataBlockList...)
+	mergedEntries := kway.MergeVersions(dataBlockList...)
 
 	discarded := lm.discardStaleEntries(mergedEntries)
 
@@ -492,7 +492,7 @@ func (lm *levelManager) compactLN(n int) {
 	dataBlockList = append(dataBlockList, dataBlockLN.Entries)
 
 	// merge sstables
-	mergedEntries := kway.Merge(dataBlockList...)
+	mergedEntries := kway.MergeVersions(dataBlockList...)
 
 	discarded := lm.discardStaleEntries(mergedEntries)
 
